@@ -13,6 +13,45 @@ fn unhex(s: &str) -> Vec<u8> {
         .collect()
 }
 
+
+/// Fallback used when the solver refuted an assertion but could not hand over concrete values
+/// (counterexample trace generation out of memory): look for an input on which the SAME clause fails
+/// natively. The solver's verdict is the deciding step; this only finds a replayable witness.
+fn search(name: &str, label: &str, budget: u64, seed: u64) -> Option<Vec<u8>> {
+    let reg = qx_harness_core::table::registry();
+    let (_, k, f) = reg.iter().find(|(n, _, _)| *n == name)?;
+    let f = *f;
+    let k = *k;
+    let alphabet: &[u8] = b"<>/!?-[]=\"' \t\nab&;#x09:DOCTYPE\x00\x01\x02\x03\x04\x05\x07\x08\x7f\x80\xbf\xef\xbb\xff";
+    let mut state = seed.wrapping_mul(6364136223846793005).wrapping_add(1442695040888963407) | 1;
+    let mut next = move || {
+        state ^= state << 13;
+        state ^= state >> 7;
+        state ^= state << 17;
+        state
+    };
+    panic::set_hook(Box::new(|_| {}));
+    for _ in 0..budget {
+        let mut raw = vec![0u8; k];
+        for b in raw.iter_mut() {
+            let r = next();
+            *b = match r % 10 {
+                0..=4 => ((r >> 8) % 16) as u8,
+                5..=7 => alphabet[((r >> 8) as usize) % alphabet.len()],
+                _ => (r >> 8) as u8,
+            };
+        }
+        let raw2 = raw.clone();
+        let res = panic::catch_unwind(move || f(&raw2));
+        match res {
+            Ok(Outcome::Fail(l)) if l == label => return Some(raw),
+            Err(_) if label == "PANIC" => return Some(raw),
+            _ => {}
+        }
+    }
+    None
+}
+
 fn main() {
     let args: Vec<String> = std::env::args().collect();
     if args.len() < 2 {
@@ -55,6 +94,17 @@ fn main() {
                     };
                     println!("PANIC {}", msg);
                     std::process::exit(1);
+                }
+            }
+        }
+        "search" => {
+            let budget: u64 = args.get(4).and_then(|s| s.parse().ok()).unwrap_or(2_000_000);
+            let seed: u64 = args.get(5).and_then(|s| s.parse().ok()).unwrap_or(1);
+            match search(&args[2], &args[3], budget, seed) {
+                Some(raw) => println!("FOUND {}", raw.iter().map(|b| format!("{:02x}", b)).collect::<String>()),
+                None => {
+                    println!("NOTFOUND");
+                    std::process::exit(3);
                 }
             }
         }
